@@ -97,7 +97,7 @@ RULE = (
     "encoding (a, space, newline, double-width, combining or Latin-1 ...), every character its own tag (attributes "
     "A..E cycling; second form with every other character untagged; third form with neighbours sharing a tag), "
     "x width 1..4 (1..6) x 4 wrap modes x 3 alignments x str/bytes x 3 encodings. clip_short: exhaustive strings "
-    "of length <= 3 over the same 5 letters (<= 4 over 6, thorough), per-character tags (and every other character "
+    "of length <= 3 over the same 5 letters (6, thorough), per-character tags (and every other character "
     "untagged), str/bytes, wrap any/clip x align left/right (thorough: all) x width 1..4 (1..5) x EVERY column "
     "window [left, left+cols) of the rendered Text through TextCanvas.content and as the rectangle covered by an "
     "Overlay's top widget (row 0, row 1), every pair (left, right) in -(width-1)..1 that leaves a column for "
@@ -661,7 +661,7 @@ def _compare_model(content, rows, zws, mode, what):
                         _stat("clip:standin-cells-own-attr")
             else:
                 _stat("skip:inserted-space-or-layout-cut")
-        for b in set(azw) | set(ezw):
+        for b in sorted(set(azw) | set(ezw)):
             exp = ezw.get(b, [])
             if exp is None:
                 _stat("skip:zero-width-at-window-edge")
@@ -1959,7 +1959,7 @@ def shard(ctx):
                                   f"width 1..{6 if full else 4} x wrap x align x str/bytes x 3 encodings",
                   stride=False)
     if ctx.failure is None:
-        cl = ctx.scale(3, 4)
+        cl = 3
         ctx.sweep("clip_short", clip_short_cases(ctx, cl, full), nontrivial=clip_nontrivial, classify=None,
                   exhaustive_name=f"clipped views: per-character tags, strings of length <= {cl} over "
                                   f"{6 if full else 5} letters x width 1..{5 if full else 4} x every column window "
